@@ -28,7 +28,12 @@ Bases == <<
   [req |-> "post-expect", segs |-> <<St("1.1", "403", "Forbidden"), Fd("Connection", "close"), Bl, Dt(4)>>],
   [req |-> "get",  segs |-> <<St("1.0", "200", "OK"), Fd("Server", "x"), Bl, Dt(6)>>],
   [req |-> "head", segs |-> <<St("1.1", "204", "No Content"), Fd("Content-Length", "9"), Bl>>],
-  [req |-> "post10-close-expect", segs |-> <<St("1.1", "417", "No"), Fd("Connection", "close"), Fd("X-A", "b"), Bl, Dt(3)>>]
+  [req |-> "post10-close-expect", segs |-> <<St("1.1", "417", "No"), Fd("Connection", "close"), Fd("X-A", "b"), Bl, Dt(3)>>],
+  \* the caller gives up waiting for 100-continue and sends the body: the 100 arrives late, in the receive state
+  [req |-> "post-expect-giveup", segs |-> <<St("1.1", "100", "Continue"), Bl, St("1.1", "200", "OK"), Bl, Dt(3)>>],
+  \* interim responses with fields, every one of them asking to close the connection
+  [req |-> "get10-close", segs |-> <<St("1.1", "103", "Early Hints"), Fd("Connection", "close"), Bl, St("1.1", "103", "Early Hints"), Fd("Connection", "close"), Bl,
+                                     St("1.1", "102", "Processing"), Fd("Connection", "close"), Bl, St("1.1", "200", "OK"), Fd("Connection", "close"), Bl, Dt(4)>>]
 >>
 
 Idx(s) == 1..Len(s)
@@ -70,6 +75,13 @@ Mutations(b) ==
   \cup { [req |-> b.req, op |-> "strayLF",  site |-> i, segs |-> InsBefore(s, i, Raw("\n"))] : i \in Idx(s) }
   \cup { [req |-> b.req, op |-> "swap",     site |-> i, segs |-> Replace(Replace(s, i, s[i + 1]), i + 1, s[i])] : i \in 1..(Len(s) - 1) }
 
+\* many interim responses before the final one
+ManyInterim ==
+  { [req |-> r, op |-> "many-interim", site |-> n,
+     segs |-> [k \in 1..(3 * n) |-> CASE k % 3 = 1 -> St("1.1", c, "Hint") [] k % 3 = 2 -> Fd("Connection", "close") [] OTHER -> Bl]
+              \o <<St("1.1", "200", "OK"), Fd("Connection", "close"), Bl, Dt(4)>>]
+    : n \in {1, 4, 5, 6, 9}, r \in {"get", "get10-close", "post-expect-giveup"}, c \in {"103", "102", "199"} }
+
 Splices ==
   { [req |-> Bases[a].req, op |-> "splice", site |-> i, segs |-> SubSeq(Bases[a].segs, 1, i) \o SubSeq(Bases[c].segs, j, Len(Bases[c].segs))]
     : a \in Idx(Bases), c \in Idx(Bases), i \in {1, 2, 3}, j \in {2, 3, 4} }
@@ -98,7 +110,7 @@ OddRedirects ==
                 St("1.1", "307", "Again"), Fd("Location", "/next"), Fd("Content-Length", "0"), Bl,
                 St("1.1", "200", "OK"), Fd("Content-Length", "0"), Bl>>] : loc \in OddLocations, r \in {"get", "head"} }
 
-All == OddRedirects \cup UNION { Mutations(Bases[k]) : k \in Idx(Bases) } \cup Splices \cup Extremes \cup { [req |-> Bases[k].req, op |-> "none", site |-> 0, segs |-> Bases[k].segs] : k \in Idx(Bases) }
+All == OddRedirects \cup ManyInterim \cup UNION { Mutations(Bases[k]) : k \in Idx(Bases) } \cup Splices \cup Extremes \cup { [req |-> Bases[k].req, op |-> "none", site |-> 0, segs |-> Bases[k].segs] : k \in Idx(Bases) }
 
 Table == SetToSeq(All)
 
